@@ -41,6 +41,23 @@ def replay_rank(ctx, metrics, cstat, c, k):
         return
     if not np.array_equal(ens, e0):
         ctx.violation("ensrank:argument-modified", "ensemble matrix changed", case)
+    # scale law of the mid-rank comparison: every member repeated r times (ensembles of 60+ members full of ties between forecasts)
+    # leaves every pairwise comparison, hence the ranks and D, unchanged
+    if k % 3 == 0:
+        r = 60 // m + 1
+        big = np.repeat(ens, r, axis=1)
+        f2, r2 = np.zeros((n, n)), np.zeros(n)
+        cstat.ensrank(1e-6, big, f2, r2)
+        if not all(rat_close(f2[i, j], c["fmat"][i][j]) for i in range(n) for j in range(i + 1, n)) or \
+                not all(rat_close(r2[i], c["ranks"][i]) for i in range(n)):
+            ctx.violation("ensrank:large-ensembles", "every member repeated %d times (%d members): F=%s ranks=%s, mid-rank definition %s / %s" %
+                          (r, m * r, f2.tolist(), r2.tolist(), c["fmat"], c["ranks"]), dict(case, members_repeated=r))
+            return
+        obs = list(range(n))
+        D1, D2 = dscore(metrics, obs, ens), dscore(metrics, obs, big)
+        if not (D1 == D2 or abs(D1 - D2) <= 1e-12 or (math.isnan(D1) and math.isnan(D2))):
+            ctx.violation("dscore:large-ensembles", "D=%r with every member repeated %d times, %r without" % (D2, r, D1), dict(case, obs=obs, members_repeated=r))
+            return
     distinct = len(set(exp_ranks)) == n
     const = len(set(exp_ranks)) == 1
     for perm in itertools.permutations(range(n)):
@@ -121,6 +138,21 @@ def replay_pit_batch(ctx, metrics, cases, k):
         if not (0 <= p[i] <= 1) or (c["tied"] == 0 and not rat_close(p[i], c["rank"]) and False):
             ctx.violation("pit:range", "pit=%r" % p[i], {"obs": obs.tolist(), "ens": ens.tolist(), "row": i})
             return
+    # scale law: every row gets its own PIT whatever the number of forecasts in the call - the batch repeated to 600+ forecasts
+    # gives, for the rows without member / observation ties (no random draw involved), the values of the short call
+    if len(cases) >= 2 and k % 4 == 0:
+        np.random.seed(k)
+        ps, ss = metrics.pit(obs, ens, random=True, cst=0.3, censor=0.0)
+        rep = 600 // len(cases) + 1
+        np.random.seed(k + 1)
+        pl, sl = metrics.pit(np.tile(obs, rep), np.tile(ens, (rep, 1)), random=True, cst=0.3, censor=0.0)
+        for i in range(len(pl)):
+            c = cases[i % len(cases)]
+            if bool(sl[i]) != bool(ss[i % len(cases)]) or (c["tied"] == 0 and not bool(sl[i]) and pl[i] != ps[i % len(cases)]):
+                ctx.violation("pit:many-forecasts", "forecast %d of %d: randomised pit %r flag %s, the same forecast in a call of %d: %r flag %s" %
+                              (i, len(pl), float(pl[i]), bool(sl[i]), len(cases), float(ps[i % len(cases)]), bool(ss[i % len(cases)])),
+                              {"obs": obs.tolist(), "ens": ens.tolist(), "row": i, "forecasts": int(len(pl))})
+                return
     for ci, cst in enumerate((0.0, 0.3, 0.5)):
         np.random.seed(k)
         p, sud = metrics.pit(obs, ens, random=True, cst=cst, censor=float(ci))
